@@ -370,7 +370,9 @@ pub fn parse_check<T: StrApi>(run: &mut Run) {
     vals.push(BigRef::pow2(bits as u64 + 1));
     vals.push(BigRef::pow2(2 * bits as u64));
     let states = std::sync::atomic::AtomicU64::new(0);
-    let total = par_chunks(threads, rad_a.len(), |lo, hi, l| for &r in &rad_a[lo..hi] {
+    // every radix for the value-directed numerals (chunk sizes of the parser depend on radix and digit width)
+    let rad_c: Vec<u32> = (2..=36).collect();
+    let total = par_chunks(threads, rad_c.len(), |lo, hi, l| for &r in &rad_c[lo..hi] {
         let cap = capacity(ti, r);
         let mut strings: Vec<Vec<u8>> = Vec::new();
         let mut vs = vals.clone();
